@@ -62,7 +62,14 @@ def _unint(t):
 
 
 def _unint_facts(f):
-    return {_unint(k): v for k, v in f.items()}
+    """The same facts with `int(port)` read as `port` - alternatives of a merged state included."""
+    from ..interp import Facts
+    out = Facts({_unint(k): v for k, v in f.items()})
+    alts = getattr(f, "alts", None)
+    if alts:
+        # group keys stay as they are (`int(port)` and `port` remain two groups; both are "about" the port)
+        out.alts = {g: tuple(frozenset((_unint(k), v) for k, v in alt) for alt in alt_set) for g, alt_set in alts.items()}
+    return out
 
 
 def prt1(ctx: Ctx):
